@@ -17,6 +17,7 @@ EXPLANATION = (
     "(a job directory symlinked into a workspace belongs to the project that holds the link); _locate_config_dir walks "
     "upwards one parent at a time and returns the first directory with a config file; get_project(search=False) does not walk."
     ' Every upward walk in _locate_config_dir starts from os.path.abspath(...); directory creation written in init_project tolerates an existing directory.'
+    ' The search=False guard tests a lexically normalised file name like the walk that follows; a textual parent (dirname) of the truncated job path needs an explicit existence test; every upward walk (also one factored into a generator helper) starts from os.path.abspath.'
 )
 UNDECIDED = "Resolution for every directory layout, relative paths under varying cwd and LookupError for every non-matching input are not decided."
 
